@@ -17,6 +17,10 @@ pub enum Case {
     Derive { kem: KemId, ikm: Bytes },
     Gen { kem: KemId, stream: Bytes },
     Encap { kem: KemId, auth: bool, ikm_r: Bytes, ikm_s: Bytes, stream: Bytes },
+    /// decapsulation of / encapsulation to an unusual but valid peer key (constructed points: small
+    /// x, negated, corner-on-curve; for X25519 arbitrary 32 bytes incl. non-canonical u): the shared
+    /// secret must be the reference's
+    PeerKey { kem: KemId, ikm_own: Bytes, peer: Bytes, stream: Bytes },
     /// golden input whose first P-256 candidate is >= n (index into corpus/p256_counter1.json)
     Counter1 { index: usize },
     /// ikmR/ikmS/ikmE -> key pairs of a committed vector ("anchors" or "golden")
@@ -113,13 +117,64 @@ fn check_encap(kem: KemId, auth: bool, ikm_r: &[u8], ikm_s: &[u8], stream: &[u8]
     Verdict::Pass
 }
 
+fn check_peer(kem: KemId, ikm_own: &[u8], peer: &[u8], stream: &[u8], obs: &mut Obs) -> Verdict {
+    let d = suite::get_kem(kem);
+    let (sk, _) = gen::ref_keypair(kem, ikm_own);
+    // receiver role: peer is the encapsulated key
+    if let Some(want) = r::decap(kem, peer, &sk) {
+        obs.inner_checks += 1;
+        match d.decap(&sk, None, peer) {
+            Ok(ss) => ensure!(ss == want, "C03/decap/shared-secret", "{}: decap of the valid encapsulated key {} gives {} instead of the RFC 9180 value {}", kem.name(), hex_short(peer), hex_short(&ss), hex_short(&want)),
+            Err(Fail::Construct(s, e)) => return Verdict::skip(format!("construction_failed({}:{:?})", s, e)),
+            Err(Fail::Hpke(e)) => return Verdict::fail("C03/decap/error", format!("{}: decap of the valid encapsulated key {} failed with {:?}", kem.name(), hex_short(peer), e)),
+        }
+    } else {
+        return Verdict::skip("reference rejects the peer key (C09/C10 own that)");
+    }
+    // sender role: peer is the recipient public key
+    let ikm_e = ScriptRng::peek(stream, kem.nsk());
+    if let Some((want_ss, want_enc)) = r::encap(kem, peer, &ikm_e) {
+        obs.inner_checks += 1;
+        let mut rng = ScriptRng::new(stream);
+        match d.encap(peer, None, &mut rng) {
+            Ok((ss, enc)) => ensure!(ss == want_ss && enc == want_enc, "C03/encap/shared-secret", "{}: encap to the valid recipient key {} gives ({}, {}) instead of the RFC 9180 values ({}, {})", kem.name(), hex_short(peer), hex_short(&ss), hex_short(&enc), hex_short(&want_ss), hex_short(&want_enc)),
+            Err(Fail::Construct(s, e)) => return Verdict::skip(format!("construction_failed({}:{:?})", s, e)),
+            Err(Fail::Hpke(e)) => return Verdict::fail("C03/encap/error", format!("{}: encap to the valid recipient key {} failed with {:?}", kem.name(), hex_short(peer), e)),
+        }
+    }
+    Verdict::Pass
+}
+
+/// Valid but unusual peer keys
+fn peer_keys(kem: KemId, seed: u64) -> Vec<Vec<u8>> {
+    match kem.curve() {
+        Some(c) => super::c09::constructed_public(kem, seed).into_iter().filter(|(h, b)| !h.starts_with("tag-byte") && c.valid_public(b)).map(|(_, b)| b).collect(),
+        None => {
+            let mut v: Vec<Vec<u8>> = (0..6u64).map(|i| gen::fill(32, 9, seed ^ i)).collect();
+            // non-canonical u (>= p) and bit 255 set: RFC 7748 masks / reduces them
+            let mut a = vec![0xffu8; 32];
+            a[0] = 0xf0;
+            v.push(a.clone());
+            a[31] = 0x7f;
+            v.push(a);
+            let mut b = gen::fill(32, 9, seed ^ 99);
+            b[31] |= 0x80;
+            v.push(b);
+            let mut two = vec![0u8; 32];
+            two[0] = 2;
+            v.push(two);
+            v
+        }
+    }
+}
+
 impl Property for P {
     type Case = Case;
     fn id(&self) -> &'static str {
         "C03"
     }
     fn rule(&self) -> String {
-        "Generated: per KEM, ikm of any length 0..=300 (derive), RNG streams (gen_keypair), recipient/sender/ephemeral inputs x {plain, auth} (encap/decap). \
+        "Generated: per KEM, ikm of any length 0..=300 (derive), RNG streams (gen_keypair), recipient/sender/ephemeral inputs x {plain, auth} (encap/decap); decap of / encap to unusual valid peer keys (points lifted from small x, negated points, corner x values on the curve; X25519 non-canonical u and bit 255). \
          Swept: every ikm length 0..=300 and 65536 for each of 4 KEMs; 4 KEMs x {plain, auth} cells; the P-256 retry-path golden inputs; key pairs of all committed vectors. \
          Oracle: reference DeriveKeyPair / Encap / Decap (own HKDF, own curve arithmetic; X25519 private keys compared up to RFC 7748 clamping). \
          Non-trivial: an auth variant, or ikm length != 32, or a retry-path input."
@@ -149,6 +204,11 @@ impl Property for P {
             2 => (gen::kem(), gen::stream()).prop_map(|(kem, stream)| Case::Gen { kem, stream }),
             6 => (gen::kem(), any::<bool>(), gen::ikm(), gen::ikm(), gen::stream())
                 .prop_map(|(kem, auth, ikm_r, ikm_s, stream)| Case::Encap { kem, auth, ikm_r, ikm_s, stream }),
+            3 => (gen::kem(), gen::ikm(), any::<u64>(), any::<u16>(), gen::stream()).prop_map(|(kem, ikm_own, seed, idx, stream)| {
+                let list = peer_keys(kem, seed);
+                let peer = Bytes(list[crate::engine::pick_index(idx, list.len())].clone());
+                Case::PeerKey { kem, ikm_own, peer, stream }
+            }),
         ]
         .boxed()
     }
@@ -184,7 +244,14 @@ impl Property for P {
                 vk.push(Case::VectorKeys { file: f.into(), index: i });
             }
         }
+        let mut peers = Vec::new();
+        for kem in KemId::ALL {
+            for (i, pk) in peer_keys(kem, 33).into_iter().enumerate() {
+                peers.push(Case::PeerKey { kem, ikm_own: Bytes(gen::fill(kem.nsk(), 5, 500 + i as u64)), peer: Bytes(pk), stream: Bytes(gen::fill(160, 5, 600 + i as u64)) });
+            }
+        }
         vec![
+            ("unusual_valid_peer_keys".into(), peers),
             ("p256_retry_path_golden_inputs".into(), c1),
             ("vector_key_pairs".into(), vk),
             ("kem_x_auth_cells".into(), cells),
@@ -206,6 +273,11 @@ impl Property for P {
                 obs.label(format!("encap:{}:auth={}", kem.name(), auth));
                 obs.nontrivial = *auth || ikm_r.len() != 32;
                 check_encap(*kem, *auth, ikm_r, ikm_s, stream, obs)
+            }
+            Case::PeerKey { kem, ikm_own, peer, stream } => {
+                obs.label(format!("peer-key:{}", kem.name()));
+                obs.nontrivial = true;
+                check_peer(*kem, ikm_own, peer, stream, obs)
             }
             Case::Counter1 { index } => {
                 let es = match corpus::p256_counter1() {
